@@ -351,6 +351,13 @@ func (s *serverSocket) onError(err error) {
 func (s *serverSocket) onClose(reason Reason) {
 	s.debug.Log("Going to close the socket if it is not already closed. Reason", reason)
 
+	// A socket that is not connected (yet) has nothing to close. This must not
+	// use up `closeOnce`: the socket may be in the middle of being connected,
+	// and it has to be closable afterwards.
+	if !s.Connected() {
+		return
+	}
+
 	// Server socket is one-time, it cannot be reconnected.
 	// We don't want it to close more than once,
 	// so we use sync.Once to avoid running onClose more than once.
